@@ -8,6 +8,7 @@ package main
 //   - the client: the key apiParse reads, and whether ApiRequest rejects a status outside [lo, hi).
 
 import (
+	"go/types"
 	"bytes"
 	"fmt"
 	"go/ast"
@@ -314,8 +315,23 @@ func init() {
 		if ar == nil {
 			return fmt.Errorf("func ApiRequest not found")
 		}
-		// if status < LO || status >= HI { … return }  before the call of apiParse
+		// The status gate before the call of apiParse: an `if <cond on the status> { err = …; return }`. The
+		// condition is EVALUATED for every status 0..999 (it may be `status < 200 || status >= 300`, a helper such
+		// as `!statusOK(status)`, a switch — whatever): the statuses that pass must be one run [lo, hi).
 		found, lo, hi := false, int64(0), int64(0)
+		var statusObj types.Object
+		ast.Inspect(ar.Body, func(x ast.Node) bool {
+			if as, ok := x.(*ast.AssignStmt); ok && len(as.Rhs) == 1 && len(as.Lhs) >= 1 && statusObj == nil {
+				if c, ok := as.Rhs[0].(*ast.CallExpr); ok && exprName(c.Fun) == "apiGet" {
+					if id, ok := as.Lhs[0].(*ast.Ident); ok {
+						if statusObj = p.info.Defs[id]; statusObj == nil {
+							statusObj = p.info.Uses[id]
+						}
+					}
+				}
+			}
+			return true
+		})
 		for _, st := range ar.Body.List {
 			ifs, ok := st.(*ast.IfStmt)
 			if !ok {
@@ -329,24 +345,15 @@ func init() {
 				}
 				continue
 			}
-			be, ok := ifs.Cond.(*ast.BinaryExpr)
-			if !ok || be.Op != token.LOR {
-				continue
+			if es, ok := st.(*ast.ExprStmt); ok {
+				_ = es
 			}
-			l, ok1 := be.X.(*ast.BinaryExpr)
-			r, ok2 := be.Y.(*ast.BinaryExpr)
-			if !ok1 || !ok2 || l.Op != token.LSS || r.Op != token.GEQ || exprName(l.X) != "status" || exprName(r.X) != "status" {
-				continue
-			}
-			a, oka := p.intConst64(l.Y)
-			b, okb := p.intConst64(r.Y)
-			returns := false
+			returns, setsErr, usesStatus := false, false, false
 			for _, b := range ifs.Body.List {
 				if _, ok := b.(*ast.ReturnStmt); ok {
 					returns = true
 				}
 			}
-			setsErr := false
 			ast.Inspect(ifs.Body, func(x ast.Node) bool {
 				if as, ok := x.(*ast.AssignStmt); ok {
 					for _, l := range as.Lhs {
@@ -357,8 +364,49 @@ func init() {
 				}
 				return true
 			})
-			if oka && okb && returns && setsErr {
-				found, lo, hi = true, a, b
+			ast.Inspect(ifs.Cond, func(x ast.Node) bool {
+				if id, ok := x.(*ast.Ident); ok && statusObj != nil && p.info.Uses[id] == statusObj {
+					usesStatus = true
+				}
+				return true
+			})
+			if !returns || !setsErr || !usesStatus {
+				continue
+			}
+			var runs [][2]int64
+			open, evalOK := false, true
+			for v := int64(0); v <= 999 && evalOK; v++ {
+				func() {
+					defer func() {
+						if r := recover(); r != nil {
+							if _, isU := r.(evUnsupported); isU {
+								evalOK = false
+								return
+							}
+							if _, isP := r.(evPanic); isP {
+								evalOK = false
+								return
+							}
+							panic(r)
+						}
+					}()
+					e := &evaluator{p: p, locals: map[types.Object]evVal{statusObj: {k: evInt, i: v}}}
+					c := e.expr(ifs.Cond)
+					if c.k != evBool {
+						evalOK = false
+						return
+					}
+					if !c.b && !open { // the status passes the gate
+						runs, open = append(runs, [2]int64{v, v + 1}), true
+					} else if !c.b {
+						runs[len(runs)-1][1] = v + 1
+					} else {
+						open = false
+					}
+				}()
+			}
+			if evalOK && len(runs) == 1 {
+				found, lo, hi = true, runs[0][0], runs[0][1]
 			}
 		}
 		fmt.Fprintf(w, "/-- `ApiRequest`: before parsing, `if status < lo || status >= hi { err = …; return }` (false: no such check). -/\ndef clientChecksStatus : Bool := %v\ndef clientStatusLo : Nat := %d\ndef clientStatusHi : Nat := %d\n", found, lo, hi)
